@@ -1657,13 +1657,43 @@ func (x *Exec) builtin(b *ssa.Builtin, args []Value, c *ssa.CallCommon) Value {
 				return args[0]
 			}
 		}
+		n := len(addElems)
+		if s != nil && s.LenT == nil && s.Len+n <= s.Cap {
+			// room in the backing array: append writes in place and the result aliases s (as in Go)
+			arr := s.Arr.Val.(*Agg)
+			for i, e := range addElems {
+				arr.Elems[s.Off+s.Len+i] = copyVal(e)
+			}
+			return &SliceV{Arr: s.Arr, Off: s.Off, Len: s.Len + n, Cap: s.Cap}
+		}
 		var elems []Value
 		elems = append(elems, x.sliceElems(s)...)
 		for _, e := range addElems {
 			elems = append(elems, copyVal(e))
 		}
-		// always reallocate (sound for code that does not rely on aliasing after append)
-		return x.newSlice(elems, "append")
+		// grow: double small capacities like the runtime does (size-class rounding is not modelled)
+		oldCap := 0
+		if s != nil {
+			oldCap = s.Cap
+		}
+		newCap := len(elems)
+		if d := 2 * oldCap; d > newCap && oldCap < 256 {
+			newCap = d
+		}
+		var et types.Type
+		if st, ok := c.Signature().Params().At(0).Type().Underlying().(*types.Slice); ok {
+			et = st.Elem()
+		}
+		full := make([]Value, newCap)
+		copy(full, elems)
+		for i := len(elems); i < newCap; i++ {
+			if et != nil {
+				full[i] = x.zero(et)
+			} else {
+				full[i] = mkInt(0)
+			}
+		}
+		return &SliceV{Arr: x.newObj(&Agg{Elems: full}, "append"), Len: len(elems), Cap: newCap}
 	case "copy":
 		dst, _ := args[0].(*SliceV)
 		var src []Value
